@@ -6,21 +6,32 @@ FRAGMENT = {
  'quick': {'runs': 60000, 'budget_s': 28, 'workers': 16},
  'thorough': {'runs': 2000000, 'budget_s': 600, 'workers': 16, 'det_sample': 200},
  'level_text': 'seeded exploration of frames (subsets of lines 7-23/320-336 x Teletext/VPS/WSS/caption/raw x payloads, undefined Teletext lines, deliberately invalid '
-               'frames) x configurations (data_identifier, PES size range, PES/TS, PID, service mask) x PTS values x callback/coroutine output with planned buffer '
+               'frames) x frame sequences (in two runs of three every ordered pair of: previous frame ends in the first field / in the second field / with undefined '
+               'lines of either field parity / with a raw line, next frame begins with undefined lines / a low line of the first field / in the second field / a raw '
+               'line; frames of undefined lines only; counters seq_*_then_*) x configurations (data_identifier, PES size range, PES/TS, PID, service mask) x PTS values x callback/coroutine output with planned buffer '
                'sizes x demultiplexer feed partitions; real multiplexer and real demultiplexer under ASan+UBSan; emitted bytes checked by a parser written from '
                'ISO 13818-1 / EN 300 472 / EN 301 775 and by the round trip; sampling, not proof',
  'level_note': 'trusted: the parser and the frame validity rules (taken from the API documentation of vbi_dvb_mux_feed/cor: which frames must be accepted / '
                'rejected; where the documentation and the standard leave the outcome open both are accepted), libzvbi\'s vbi_sliced bit order conventions, clang '
-               'sanitizers.  The generator steers around nothing; five dvb_mux.c / dvb_demux.c defects found here are repaired in /repo (regress/C06)',
+               'sanitizers.  Five dvb_mux.c / dvb_demux.c defects found here are repaired in /repo (regress/C06); the generator steers around one shape, a suspected sixth defect '
+               '(frame led by undefined lines of the same field parity as the previous data unit and with a lower line number: see assumptions)',
  'design_ref': 'DESIGN.md section 6 (C06)',
- 'rule': 'one evaluation = one simulated run: 1-10 frames (quick) fed to one multiplexer with interleaved configuration changes, every emitted packet parsed, '
+ 'rule': 'one evaluation = one simulated run: 1-10 frames (quick) and one or two closing frames fed to one multiplexer with interleaved configuration changes, every emitted packet parsed, '
          'the byte pipe drained by a transport task in scheduler/plan chosen pieces into the demultiplexer, deliveries compared with the accepted frames; '
          'non-trivial = at least 3 accepted frames and 2 deliveries; distinct = distinct event-log hash',
  'fault_kinds': [],
  'components': {'real': ['src/dvb_mux.c', 'src/dvb_demux.c', 'src/hamm.c (vbi_rev8)', 'src/sampling_par.c'],
                 'stub': ['byte pipe between multiplexer and demultiplexer = seeded scheduler over producer / transport tasks',
                          'independent TS/PES/data-unit parser', 'raw VBI image and sampling parameters']},
- 'assumptions': ['frames whose first line number is above the last line of the previous frame are not recognisable as separate frames: delivered joined or '
-                 'separate, both accepted', 'undefined (line 0) Teletext lines are only generated inside a frame, never leading it, at most four per frame',
+ 'assumptions': ['frames whose first numbered line is above the last numbered line delivered before (or that have no numbered line at all) are not recognisable '
+                 'as separate frames by their line numbers: delivered joined or separate, both accepted (the oracle works this out for the frames as delivered); '
+                 'an undefined line has no number: it neither makes a frame recognisable nor ends a run of ascending numbers',
+                 'at most four undefined (line 0) Teletext lines per frame, none when the demultiplexer may have joined 58 lines already (its frame buffer has 64)',
+                 'NOT generated (guard, counter guard_lead0_same_field; suspected defect of dvb_demux.c, /verif/out/C06/lead0-same-field.json + fix-1.diff): a '
+                 'frame led by undefined lines whose field parity equals that of the last sliced data unit sent before AND with a numbered line that is not above '
+                 'the last numbered line sent before - the demultiplexer adds the undefined lines to the frame it is collecting, then takes the lower number '
+                 'in the middle of the packet for a line order error and drops both frames; the leading undefined lines of such a frame are removed unless '
+                 'the plan knob lead0_strict is set (no generator sets it; `--tier lead0strict` of the binary does, for experiments)',
+                 'plans without the knob lead0 (older replay files) keep the former canonical form: undefined lines never lead a frame, one closing frame',
                  'the field parity of an undefined line is not checked by the parser (only by the round trip)']}
 }
